@@ -60,6 +60,9 @@ def check(ctx):
         check_config(ctx, ctx.facts(cfg), "" if cfg == "native" else "@" + cfg)
         # R5: fields that are not serialized are rebuilt by load exactly as the builder computes them
         rltables.check_tables(ctx, ctx.facts(cfg), "" if cfg == "native" else "@" + cfg, "C06.R5.rl")
+        # R6: what load validates a structure against is what the builder produces (a loader that refuses the library's own output)
+        import c19
+        c19.check_partial_unit_counts(ctx, ctx.facts(cfg), "" if cfg == "native" else "@" + cfg, prefix="C06.R6")
 
 
 def flatten(ctx, name, H, B, where, tag):
